@@ -59,6 +59,10 @@ type caseT struct {
 	Ctor int `json:"ctor"`
 	// EmptyLeafSubject: the leaf certificate has an empty subject DN (identity in a subjectAltName).
 	EmptyLeafSubject bool `json:"empty_leaf_subject"`
+	// Anchor k > 0: the trust store pins the certificate at chain index k-1 (0 = leaf) instead of the root. Where the
+	// trust anchor sits has nothing to do with revocation: the validator still sees the COMPLETE chain and a revoked
+	// certificate above the anchor still fails the validation.
+	Anchor int `json:"anchor"`
 }
 
 func (c caseT) vecString() string {
@@ -142,7 +146,11 @@ func (w *world) run(r *hx.Run, c caseT) {
 		mgr.Plugins["p"] = &mocks.VerifyPlugin{Name: "p", Version: "1.0.0", Capabilities: []fw.Capability{fw.CapabilityTrustedIdentityVerifier}, ProcessAll: true}
 		opts.PluginManager = mgr
 	}
-	ts := mocks.NewTrustStore().Put(storeType, "s", ch.Root().Cert)
+	pinned := ch.Root().Cert
+	if c.Anchor > 0 {
+		pinned = ch.X509()[c.Anchor-1]
+	}
+	ts := mocks.NewTrustStore().Put(storeType, "s", pinned)
 	var v notation.Verifier
 	var err error
 	if c.Ctor == 1 {
@@ -176,6 +184,9 @@ func (w *world) run(r *hx.Run, c caseT) {
 		}
 		if c.EmptyLeafSubject {
 			key += ":leaf-with-empty-subject"
+		}
+		if c.Anchor > 0 {
+			key += ":trust-anchor-below-the-root"
 		}
 		r.Violation(key, fmt.Sprintf("%s | n=%d vector=%s method=%v servers=%d validatorError=%v iface=%d action=%s scheme=%s", what, c.N, c.vecString(), methods[c.Method], c.Servers, c.VErr, c.Iface, c.Action, scheme), c)
 	}
@@ -442,6 +453,11 @@ func main() {
 										cases = append(cases, caseT{N: n, Vec: vec, Iface: iface, Action: act, Scheme: sc, Format: f, Ctor: 1})
 										if n >= 2 && iface == 0 {
 											cases = append(cases, caseT{N: n, Vec: vec, Iface: iface, Action: act, Scheme: sc, Format: f, EmptyLeafSubject: true})
+										}
+										if n >= 2 && iface < 2 && act != "skip" && (f == 0 || r.Thorough()) {
+											for a := 1; a < n; a++ { // every certificate below the root as the trust anchor
+												cases = append(cases, caseT{N: n, Vec: vec, Iface: iface, Action: act, Scheme: sc, Format: f, Anchor: a})
+											}
 										}
 									}
 								}
